@@ -1217,6 +1217,15 @@ func (sc *serverConn) handleHeaderFrame(strm *Stream, fr *FrameHeader) error {
 			break
 		}
 
+		// The request is already lost, but the rest of its header block still
+		// has to go through the decoder: fields it adds to the dynamic table
+		// are referenced by the requests that follow.
+		if strm.malformed != nil {
+			fieldsProcessed++
+
+			continue
+		}
+
 		k, v := hf.KeyBytes(), hf.ValueBytes()
 
 		// RFC 7540 6.5.2 sizes a field as name + value + 32. The running total
@@ -1230,39 +1239,57 @@ func (sc *serverConn) handleHeaderFrame(strm *Stream, fr *FrameHeader) error {
 		// Header field names must not contain uppercase characters.
 		// https://httpwg.org/specs/rfc7540.html#rfc.section.8.1.2
 		if hasUpperCase(k) {
-			return NewResetStreamError(ProtocolError, "header field name contains uppercase characters")
+			sc.malformedField(strm, NewResetStreamError(ProtocolError, "header field name contains uppercase characters"))
+			fieldsProcessed++
+
+			continue
 		}
 
 		if hf.IsPseudo() {
 			// All pseudo-header fields must appear before regular header fields.
 			// https://httpwg.org/specs/rfc7540.html#rfc.section.8.1.2.1
 			if strm.regularSeen {
-				return NewResetStreamError(ProtocolError, "pseudo-header field after regular header field")
+				sc.malformedField(strm, NewResetStreamError(ProtocolError, "pseudo-header field after regular header field"))
+				fieldsProcessed++
+
+				continue
 			}
 
 			switch {
 			case bytes.Equal(k, StringMethod):
 				if strm.pseudoMethod {
-					return NewResetStreamError(ProtocolError, "duplicate :method pseudo-header")
+					sc.malformedField(strm, NewResetStreamError(ProtocolError, "duplicate :method pseudo-header"))
+					fieldsProcessed++
+
+					continue
 				}
 				strm.pseudoMethod = true
 				req.Header.SetMethodBytes(v)
 			case bytes.Equal(k, StringPath):
 				if strm.pseudoPath {
-					return NewResetStreamError(ProtocolError, "duplicate :path pseudo-header")
+					sc.malformedField(strm, NewResetStreamError(ProtocolError, "duplicate :path pseudo-header"))
+					fieldsProcessed++
+
+					continue
 				}
 				strm.pseudoPath = true
 				strm.path = append(strm.path[:0], v...)
 				req.Header.SetRequestURIBytes(v)
 			case bytes.Equal(k, StringScheme):
 				if strm.pseudoScheme {
-					return NewResetStreamError(ProtocolError, "duplicate :scheme pseudo-header")
+					sc.malformedField(strm, NewResetStreamError(ProtocolError, "duplicate :scheme pseudo-header"))
+					fieldsProcessed++
+
+					continue
 				}
 				strm.pseudoScheme = true
 				strm.scheme = append(strm.scheme[:0], v...)
 			case bytes.Equal(k, StringAuthority):
 				if strm.pseudoAuthority {
-					return NewResetStreamError(ProtocolError, "duplicate :authority pseudo-header")
+					sc.malformedField(strm, NewResetStreamError(ProtocolError, "duplicate :authority pseudo-header"))
+					fieldsProcessed++
+
+					continue
 				}
 				strm.pseudoAuthority = true
 				req.Header.SetHostBytes(v)
@@ -1270,7 +1297,10 @@ func (sc *serverConn) handleHeaderFrame(strm *Stream, fr *FrameHeader) error {
 			default:
 				// Any pseudo-header that is not a valid request pseudo-header
 				// (including response pseudo-headers such as :status) is invalid.
-				return NewResetStreamError(ProtocolError, fmt.Sprintf("invalid request pseudo-header %s", k))
+				sc.malformedField(strm, NewResetStreamError(ProtocolError, fmt.Sprintf("invalid request pseudo-header %s", k)))
+				fieldsProcessed++
+
+				continue
 			}
 
 			fieldsProcessed++
@@ -1283,11 +1313,17 @@ func (sc *serverConn) handleHeaderFrame(strm *Stream, fr *FrameHeader) error {
 		// Connection-specific header fields are forbidden.
 		// https://httpwg.org/specs/rfc7540.html#rfc.section.8.1.2.2
 		if isConnectionSpecific(k) {
-			return NewResetStreamError(ProtocolError, "connection-specific header field")
+			sc.malformedField(strm, NewResetStreamError(ProtocolError, "connection-specific header field"))
+			fieldsProcessed++
+
+			continue
 		}
 
 		if bytes.Equal(k, StringTE) && !bytes.Equal(v, StringTrailers) {
-			return NewResetStreamError(ProtocolError, "TE header field with a value other than trailers")
+			sc.malformedField(strm, NewResetStreamError(ProtocolError, "TE header field with a value other than trailers"))
+			fieldsProcessed++
+
+			continue
 		}
 
 		switch {
@@ -1298,7 +1334,10 @@ func (sc *serverConn) handleHeaderFrame(strm *Stream, fr *FrameHeader) error {
 		case bytes.Equal(k, StringContentLength):
 			if n, perr := parseUint(v); perr == nil {
 				if sc.maxRequestBodySize > 0 && n > sc.maxRequestBodySize {
-					return NewResetStreamError(EnhanceYourCalm, "request body is too large")
+					sc.malformedField(strm, NewResetStreamError(EnhanceYourCalm, "request body is too large"))
+					fieldsProcessed++
+
+					continue
 				}
 
 				strm.contentLength = n
@@ -1312,7 +1351,22 @@ func (sc *serverConn) handleHeaderFrame(strm *Stream, fr *FrameHeader) error {
 		fieldsProcessed++
 	}
 
+	if err == nil && strm.malformed != nil && fr.Flags().Has(FlagEndHeaders) {
+		return strm.malformed
+	}
+
 	return err
+}
+
+// malformedField records the first thing that makes a request malformed. It is
+// reported once the whole header block has been decoded, because abandoning the
+// block at the bad field leaves the HPACK dynamic table without the entries the
+// rest of the block would have added (RFC 7540 4.3: a header block must be
+// processed even when the stream it belongs to is going to be reset).
+func (sc *serverConn) malformedField(strm *Stream, err error) {
+	if strm.malformed == nil {
+		strm.malformed = err
+	}
 }
 
 // validateRequestPseudoHeaders enforces that a completed request header block
